@@ -6,7 +6,9 @@
 //! hold for the key (the last write into that layer), with
 //!   certain  the layer holds it for sure (memory layers: no eviction can have
 //!            happened since; the disk layer and the 8-entry middle layer never
-//!            evict within a case because the key pool has at most 6 keys),
+//!            evict within a case because the key pool has at most 6 keys; a newer
+//!            put of the key into another layer ends the certainty, because a
+//!            cache may invalidate the older copies on a write),
 //!   zero     written with `Duration::ZERO` (already expired, must not be served),
 //!   tainted  the disk file was overwritten / truncated by a fault (content known),
 //!   deleted  the disk file was deleted by a fault.
@@ -359,6 +361,16 @@ impl<'a> Interp<'a> {
             s.history.remove(0);
         }
         s.latest = Some(Latest { serial, bytes: bytes.clone(), layer });
+        // Whether a write invalidates the older copies in the other layers is the
+        // implementation's choice: they are either still there (and must then not be
+        // served: L1) or gone, so nothing may be demanded from them any more.
+        for (l, sl) in s.slots.iter_mut().enumerate() {
+            if l != layer {
+                if let Some(x) = sl {
+                    x.certain = false;
+                }
+            }
+        }
         s.slots[layer] = Some(Slot { bytes, serial, zero, certain: true, tainted: false, deleted: false });
         if tracks {
             self.tracked.insert(ki);
